@@ -133,7 +133,7 @@ def hdr_field(e):
 def run(rep, ctx):
     repo = ctx["repo"]
     jobs = [dict(unit="nl-writer2/src/nl-writer2.cc", repo=repo,
-                 fn=[NLW + r"::.*", r"mp::(TextFormatter|BinaryFormatter)::.*", r"mp::File::Printf"],
+                 fn=[NLW + r"::.*", r"mp::(TextFormatter|BinaryFormatter)::.*", r"mp::File::Printf", r"DAVID_GAY_GFMT::(g_fmt|gfmt)"],
                  var=[r"mp::nl::[A-Z_0-9]+", r"mp::gl_[A-Za-z0-9_]+", r"gl_[A-Za-z0-9_]+"],
                  rec=[r"NLProblemInfo_C", r"NLInfo_C", r"mp::NLHeader", r"NLHeader_C"],
                  enum=[r"mp::NLInfo::.*", r"mp::.*", r".*"]),
@@ -571,6 +571,32 @@ def number_rules(rep, F, FW):
     gf = [c for c in ta[0].walk() if c["k"] == "CallExpr" and c.get("callee", "").endswith("gfmt")]
     w1.check(len(gf) == 1 and "output_prec" in render(gf[0]), "text-g-uses-gfmt", short_loc(ta[0].loc),
              "TextFormatter::apr formats doubles with gfmt(x, output_prec)")
+    # the digit string comes from dtoa (magnitude only): the sign must be written before any of it
+    gfm = [f for f in FW.funcs if f.qn == "DAVID_GAY_GFMT::g_fmt" and not f.is_dependent()]
+    if gf and gf[0].get("callee", "").startswith("DAVID_GAY_GFMT") and not gfm:
+        raise AnalysisBroken("DAVID_GAY_GFMT::g_fmt not found")
+    if gfm:
+        g = gfm[0]
+        w2 = rep.rule("C03.W2", "PATH", "g_fmt writes the sign before any digit text of dtoa's magnitude; the buffer is rewound only for NaN", floor=3)
+        sgn = [n for n in g.walk() if n["k"] == "BinaryOperator" and n.get("op") == "=" and cv(kids(n)[1]) == ord("-") and
+               render(kids(n)[0]).replace(" ", "") == "*b++" and
+               any(render(g.nodes[cid]) == "sign" and pol is True for cid, pol in g.cfg.facts_at(n))]
+        copies = [n for n in g.walk() if n["k"] == "BinaryOperator" and n.get("op") == "=" and
+                  render(kids(n)[1]).replace(" ", "") == "*s++" and render(kids(n)[0]).replace(" ", "") in ("*b", "*b++")]
+        w2.check(len(sgn) == 1, "sign-store", short_loc(g.loc), "one store of '-' guarded by dtoa's sign flag")
+        if sgn:
+            sif = g.enclosing(sgn[0], ("IfStmt",))
+            anchor = kids(sif)[0] if sif is not None else sgn[0]
+            late = [c for c in copies if not g.cfg.dominates(anchor, c)]
+            w2.check(bool(copies) and not late, "sign-before-digits", short_loc(sgn[0].get("l")),
+                     "the sign decision precedes all %d copies of dtoa's digit/Infinity text" % len(copies),
+                     "the text of dtoa is copied at %s before the sign is written: a negative value (e.g. -Infinity) loses its sign"
+                     % (short_loc(late[0].get("l")) if late else "?"))
+        rew = [n for n in g.walk() if n["k"] == "BinaryOperator" and n.get("op") == "=" and render(n).replace(" ", "") == "b=b0"]
+        okr = all(any(render(g.nodes[cid]).replace(" ", "") == "*s=='N'" and pol is True for cid, pol in g.cfg.facts_at(n)) for n in rew)
+        w2.check(okr, "rewind-only-for-nan", short_loc(g.loc), "the output position is reset to the start only for NaN (which has no sign)")
+        zero = [n for n in g.walk() if n["k"] == "IfStmt" and render(kids(n)[0]).replace(" ", "") == "!x"]
+        w2.check(len(zero) == 1, "zero-special-case", short_loc(g.loc), "zero (either sign) is written as 0 before dtoa is consulted")
     rdbl = [f for f in F.funcs if f.qn == "mp::internal::TextReader::ReadDouble" and not f.is_dependent()]
     if rdbl:
         cs = [c.get("callee", "") for c in rdbl[0].walk() if c["k"] in ("CallExpr", "CXXMemberCallExpr")]
